@@ -14,11 +14,49 @@ namespace SafeNet.ArgTable
 
 abbrev Path := List String
 
-/-- A source expression: a (dotted) variable path or a constant written in the Rust source. -/
+/-- Case folding applied to a string value: `str::to_lowercase` (Unicode) / `str::to_ascii_lowercase`. -/
+inductive Fold where
+  | lower | asciiLower
+  deriving DecidableEq, Repr
+
+/-- A source expression: a (dotted) variable path, a constant written in the Rust source, or a case
+folding of another source expression. -/
 inductive Src where
   | var (p : Path)
   | const (t : String)
+  | fold (f : Fold) (s : Src)
   deriving DecidableEq, Repr, Inhabited
+
+/-- One character of an abstract string value, with what the two case foldings make of it:
+`plain` is unaffected by both (lower-case letters, digits, punctuation, uncased scripts);
+`asciiUp u l` is an ASCII capital `u` with lower-case form `l`; `uniUp u l` a non-ASCII capital
+(only `to_lowercase` maps it; `l` may be several code points). -/
+inductive ACh where
+  | plain (c : String)
+  | asciiUp (u l : String)
+  | uniUp (u l : String)
+  deriving DecidableEq, Repr
+
+/-- Abstract string value. -/
+abbrev AStr := List ACh
+
+def Fold.app : Fold → ACh → ACh
+  | _, .plain c => .plain c
+  | _, .asciiUp _ l => .plain l
+  | .lower, .uniUp _ l => .plain l
+  | .asciiLower, .uniUp u l => .uniUp u l
+
+def ACh.show : ACh → String
+  | .plain c => c
+  | .asciiUp u _ => u
+  | .uniUp u _ => u
+
+def AStr.show (a : AStr) : String := String.join (a.map ACh.show)
+
+/-- Two foldings in a row are one folding. -/
+def Fold.join : Fold → Fold → Fold
+  | .asciiLower, .asciiLower => .asciiLower
+  | _, _ => .lower
 
 inductive Render where
   | display | lossy | asStr | joinComma
@@ -41,10 +79,15 @@ structure Entry where
 
 inductive Val where
   | bool (b : Bool)
-  | opt (o : Option String)
-  | list (l : List String)
+  | opt (o : Option AStr)
+  | list (l : List AStr)
   | evm (variant : String)
   deriving DecidableEq, Repr, Inhabited
+
+def Val.fold (f : Fold) : Val → Val
+  | .opt o => .opt (o.map fun a => a.map f.app)
+  | .list l => .list (l.map fun a => a.map f.app)
+  | v => v
 
 abbrev Valuation := Path → Val
 
@@ -55,7 +98,8 @@ def evalSrc (σ : Valuation) : Src → Val
     if t = "None" then .opt none
     else if t = "true" then .bool true
     else if t = "false" then .bool false
-    else .opt (some t)
+    else .opt (some [.plain t])
+  | .fold f s => (evalSrc σ s).fold f
 
 def guardSrc : Guard → Src
   | .always => .const "true"
@@ -96,14 +140,14 @@ def lookupD (tbl : List (String × String)) (k : String) : String :=
 
 def asWord (disp : List (String × String)) : Val → String
   | .bool b => if b then "true" else "false"
-  | .opt (some s) => s
+  | .opt (some s) => s.show
   | .opt none => ""
-  | .list l => ",".intercalate l
+  | .list l => ",".intercalate (l.map AStr.show)
   | .evm v => lookupD disp v
 
 def asList : Val → List String
-  | .list l => l
-  | .opt (some s) => [s]
+  | .list l => l.map AStr.show
+  | .opt (some s) => [s.show]
   | _ => []
 
 def ival (disp : List (String × String)) (v : Val) : Render → IVal
@@ -124,6 +168,23 @@ def interp (disp : List (String × String)) (T : List Entry) (σ : Valuation) : 
 def Src.subst (f : Path → Src) : Src → Src
   | .var p => f p
   | .const t => .const t
+  | .fold g s => .fold g (s.subst f)
+
+/-- Normal form of case foldings: a chain of foldings is one folding. -/
+def Src.norm : Src → Src
+  | .var p => .var p
+  | .const t => .const t
+  | .fold f s =>
+    match s.norm with
+    | .fold g t => .fold (f.join g) t
+    | t => .fold f t
+
+def Guard.norm : Guard → Guard
+  | .always => .always
+  | .isTrue s => .isTrue s.norm
+  | .isSome s => .isSome s.norm
+  | .nonEmpty s => .nonEmpty s.norm
+  | .evmCustom s => .evmCustom s.norm
 
 def Guard.subst (f : Path → Src) : Guard → Guard
   | .always => .always
@@ -135,6 +196,9 @@ def Guard.subst (f : Path → Src) : Guard → Guard
 def Entry.subst (f : Path → Src) (e : Entry) : Entry :=
   ⟨e.guard.subst f, e.flag, match e.value with | none => none | some (s, r) => some (s.subst f, r)⟩
 
+def Entry.norm (e : Entry) : Entry :=
+  ⟨e.guard.norm, e.flag, match e.value with | none => none | some (s, r) => some (s.norm, r)⟩
+
 /-- A struct literal `{ field: expr, .. }` read as a substitution: the head component of a path is a
 field of the literal, the rest is a sub-field of its value. Unknown fields are marked. -/
 def viaLiteral (lit : List (String × Src)) : Path → Src
@@ -143,10 +207,40 @@ def viaLiteral (lit : List (String × Src)) : Path → Src
     match lit.lookup h with
     | some (.var q) => .var (q ++ rest)
     | some (.const t) => .const t
+    | some (.fold f s) => if rest = [] then .fold f s else .var ("?field-of-folded" :: h :: rest)
     | none => .var ("?unmapped" :: h :: rest)
+
+/-- Derived locals (`let owner = … options.owner.to_lowercase() …`) read as a substitution: only the
+listed single-component paths are rewritten. -/
+def viaLocals (lit : List (String × Src)) : Path → Src
+  | [h] => match lit.lookup h with | some s => s | none => .var [h]
+  | p => .var p
 
 /-- The valuation of the target record given the valuation of the source record. -/
 def through (f : Path → Src) (σ : Valuation) : Valuation := fun p => evalSrc σ (f p)
+
+/-! ## Where `add_node` stores the registry-wide environment, and how an `add` can end -/
+
+/-- Position of the statement that copies `options.env_variables` into the registry, relative to the
+install loop and to the `return Err(..)` taken when some installs failed. -/
+inductive EnvStorePos where
+  | beforeInstalls | afterLoop | afterFailureReturn | never
+  deriving DecidableEq, Repr
+
+/-- How `add_node` returned: every service installed; the loop finished but some installs failed
+(`Err` after the loop); a `?` inside the loop returned early. In the last two cases the services
+installed so far stay installed and recorded. -/
+inductive AddOutcome where
+  | allInstalled | someFailed | aborted
+  deriving DecidableEq, Repr
+
+def envStored : EnvStorePos → AddOutcome → Bool
+  | .beforeInstalls, _ => true
+  | .afterLoop, .aborted => false
+  | .afterLoop, _ => true
+  | .afterFailureReturn, .allInstalled => true
+  | .afterFailureReturn, _ => false
+  | .never, _ => false
 
 /-! ## The clap surface -/
 
